@@ -127,4 +127,23 @@ SCENARIO(two_owners) {
   w.finish();
 }
 
+SCENARIO(late_stop_dereg) {
+  World w;
+  w.reg(0);                       // registered before the two requesters exist
+  int t1 = rt::spawn([&] { w.stop(); });
+  int t2 = rt::spawn([&] { w.stop(); w.dereg(0); });
+  rt::join(t1); rt::join(t2);
+  w.finish();
+}
+
+SCENARIO(late_stop_self_dereg) {
+  World w; w.body[0] = Body::dereg_self;
+  w.reg(0);
+  int t1 = rt::spawn([&] { w.stop(); });
+  int t2 = rt::spawn([&] { w.stop(); });
+  rt::join(t1); rt::join(t2);
+  w.dereg_if_live(0);
+  w.finish();
+}
+
 RT_MAIN()
